@@ -33,13 +33,28 @@ type c10Val struct {
 type c10Tr struct {
 	fset *token.FileSet
 	env  map[string]c10Val
+	what string // what is being translated (for error messages)
+	// hooks for the facts a particular piece of code reads:
+	// symExpr: an expression that stands for an input fact (nil: none)
+	symExpr func(t *c10Tr, e ast.Expr) (c10Val, bool)
+	// twoValue: a `a, ok := x.(T)` statement; binds the names in env and reports whether it understood the statement
+	twoValue func(t *c10Tr, s *ast.AssignStmt) bool
+	// forLoop: a loop of a known shape, as the Gallina bool "the loop ran to its end without returning false"
+	forLoop func(t *c10Tr, s *ast.ForStmt) (string, bool)
+	// ptrEq: pointer comparison of two symbolic pointers (by their type tags) -> the Gallina bool that stands for it
+	ptrEq map[[2]string]string
 }
 
 func (t *c10Tr) errf(n ast.Node, format string, args ...interface{}) error {
-	return fmt.Errorf("typematch opNamed clause, %s: %s", t.fset.Position(n.Pos()), fmt.Sprintf(format, args...))
+	return fmt.Errorf("%s, %s: %s", t.what, t.fset.Position(n.Pos()), fmt.Sprintf(format, args...))
 }
 
 func (t *c10Tr) expr(e ast.Expr) (c10Val, error) {
+	if t.symExpr != nil {
+		if v, ok := t.symExpr(t, e); ok {
+			return v, nil
+		}
+	}
 	switch e := e.(type) {
 	case *ast.ParenExpr:
 		return t.expr(e.X)
@@ -110,8 +125,10 @@ func (t *c10Tr) expr(e ast.Expr) (c10Val, error) {
 				eq = "(String.eqb " + x.term + " " + y.term + ")"
 			case x.typ == "int" && y.typ == "int":
 				eq = "(Z.eqb " + x.term + " " + y.term + ")"
-			case x.typ == "pkg" && y.typ == "nil":
-				eq = "(negb has_pkg)"
+			case t.ptrEq[[2]string{x.typ, y.typ}] != "":
+				eq = t.ptrEq[[2]string{x.typ, y.typ}]
+			case strings.HasPrefix(x.typ, "nilable:") && y.typ == "nil":
+				eq = "(negb " + x.typ[len("nilable:"):] + ")" // a pointer whose non-nil-ness is the named fact
 			case x.typ == "bool" && y.typ == "bool":
 				eq = "(Bool.eqb " + x.term + " " + y.term + ")"
 			default:
@@ -165,16 +182,6 @@ func (t *c10Tr) expr(e ast.Expr) (c10Val, error) {
 			break
 		}
 		return c10Val{"(go_slice " + x.term + " " + lo.term + " " + hi.term + ")", "string"}, nil
-	case *ast.IndexExpr:
-		// sub.value.([2]string)[i]
-		if exprString(t.fset, e.X) == "sub.value.([2]string)" {
-			switch exprString(t.fset, e.Index) {
-			case "0":
-				return c10Val{"pat_path", "string"}, nil
-			case "1":
-				return c10Val{"pat_name", "string"}, nil
-			}
-		}
 	case *ast.CallExpr:
 		if id, ok := e.Fun.(*ast.Ident); ok {
 			switch {
@@ -224,23 +231,6 @@ func (t *c10Tr) expr(e ast.Expr) (c10Val, error) {
 			}
 			break
 		}
-		if len(e.Args) != 0 {
-			break
-		}
-		recv, err := t.expr(sel.X)
-		if err != nil {
-			return c10Val{}, err
-		}
-		switch {
-		case recv.typ == "named" && sel.Sel.Name == "Obj":
-			return c10Val{"", "obj"}, nil
-		case recv.typ == "obj" && sel.Sel.Name == "Pkg":
-			return c10Val{"", "pkg"}, nil
-		case recv.typ == "obj" && sel.Sel.Name == "Name":
-			return c10Val{"obj_name", "string"}, nil
-		case recv.typ == "pkg" && sel.Sel.Name == "Path":
-			return c10Val{"obj_path", "string"}, nil
-		}
 	}
 	return c10Val{}, t.errf(e, "expression %s not understood", exprString(t.fset, e))
 }
@@ -248,7 +238,7 @@ func (t *c10Tr) expr(e ast.Expr) (c10Val, error) {
 // stmts translates a statement list that must end in a return on every path into a Gallina bool term.
 func (t *c10Tr) stmts(list []ast.Stmt) (string, error) {
 	if len(list) == 0 {
-		return "", fmt.Errorf("typematch opNamed clause: a path does not end in a return")
+		return "", fmt.Errorf("%s: a path does not end in a return", t.what)
 	}
 	s, rest := list[0], list[1:]
 	switch s := s.(type) {
@@ -265,12 +255,8 @@ func (t *c10Tr) stmts(list []ast.Stmt) (string, error) {
 		}
 		return v.term, nil
 	case *ast.AssignStmt:
-		// typ, ok := typ.(*types.Named)
 		if len(s.Lhs) == 2 && len(s.Rhs) == 1 {
-			if ta, ok := s.Rhs[0].(*ast.TypeAssertExpr); ok && s.Tok == token.DEFINE && exprString(t.fset, ta.Type) == "*types.Named" && exprString(t.fset, ta.X) == "typ" {
-				a, b := s.Lhs[0].(*ast.Ident), s.Lhs[1].(*ast.Ident)
-				t.env[a.Name] = c10Val{"", "named"}
-				t.env[b.Name] = c10Val{"is_named", "bool"}
+			if t.twoValue != nil && t.twoValue(t, s) {
 				return t.stmts(rest)
 			}
 			return "", t.errf(s, "two-value assignment not understood")
@@ -394,6 +380,17 @@ func (t *c10Tr) stmts(list []ast.Stmt) (string, error) {
 			return "", err
 		}
 		return out + restT, nil
+	case *ast.ForStmt:
+		if t.forLoop != nil {
+			if all, ok := t.forLoop(t, s); ok {
+				restT, err := t.stmts(rest)
+				if err != nil {
+					return "", err
+				}
+				return fmt.Sprintf("if (negb %s) then false else\n  %s", all, restT), nil
+			}
+		}
+		return "", t.errf(s, "loop not understood")
 	case *ast.EmptyStmt:
 		return t.stmts(rest)
 	}
@@ -451,7 +448,56 @@ func c10Tables(repo string, args []string) (string, error) {
 	if clause == nil || nclauses != 1 {
 		return "", fmt.Errorf("typematch: expected exactly one `case opNamed:` clause in Pattern.matchIdentical")
 	}
-	tr := &c10Tr{fset: fset, env: map[string]c10Val{"typ": {"", "anytype"}}}
+	tr := &c10Tr{fset: fset, env: map[string]c10Val{"typ": {"", "anytype"}}, what: "typematch opNamed clause"}
+	// the facts the clause reads
+	tr.twoValue = func(t *c10Tr, s *ast.AssignStmt) bool {
+		// typ, ok := typ.(*types.Named)
+		ta, ok := s.Rhs[0].(*ast.TypeAssertExpr)
+		if !ok || s.Tok != token.DEFINE || exprString(t.fset, ta.Type) != "*types.Named" || exprString(t.fset, ta.X) != "typ" {
+			return false
+		}
+		a, b := s.Lhs[0].(*ast.Ident), s.Lhs[1].(*ast.Ident)
+		t.env[a.Name] = c10Val{"", "named"}
+		t.env[b.Name] = c10Val{"is_named", "bool"}
+		return true
+	}
+	tr.symExpr = func(t *c10Tr, e ast.Expr) (c10Val, bool) {
+		switch e := e.(type) {
+		case *ast.IndexExpr:
+			// sub.value.([2]string)[i]
+			if exprString(t.fset, e.X) == "sub.value.([2]string)" {
+				switch exprString(t.fset, e.Index) {
+				case "0":
+					return c10Val{"pat_path", "string"}, true
+				case "1":
+					return c10Val{"pat_name", "string"}, true
+				}
+			}
+		case *ast.CallExpr:
+			sel, ok := e.Fun.(*ast.SelectorExpr)
+			if !ok || len(e.Args) != 0 {
+				return c10Val{}, false
+			}
+			if id, ok := sel.X.(*ast.Ident); ok && id.Name == "strings" {
+				return c10Val{}, false
+			}
+			recv, err := t.expr(sel.X)
+			if err != nil {
+				return c10Val{}, false
+			}
+			switch {
+			case recv.typ == "named" && sel.Sel.Name == "Obj":
+				return c10Val{"", "obj"}, true
+			case recv.typ == "obj" && sel.Sel.Name == "Pkg":
+				return c10Val{"", "nilable:has_pkg"}, true
+			case recv.typ == "obj" && sel.Sel.Name == "Name":
+				return c10Val{"obj_name", "string"}, true
+			case recv.typ == "nilable:has_pkg" && sel.Sel.Name == "Path":
+				return c10Val{"obj_path", "string"}, true
+			}
+		}
+		return c10Val{}, false
+	}
 	body, err := tr.stmts(clause.Body)
 	if err != nil {
 		return "", err
